@@ -1,23 +1,102 @@
-# Per-property check configuration: which scenarios (harness scenario name, build flavour, share of the budget).
+# Per-property check configuration: scenarios = [(harness scenario, build flavour, share of the budget)].
+COMMON_NOTE = ("Trusted: model/refop.cpp (sequential reference implementation of the documented stencil), the a-priori "
+               "rounding bounds (DESIGN 3.3), g++/libstdc++, and that simgomp implements the GOMP ABI subset faithfully. "
+               "The simulator explores sequentially consistent interleavings; sampling, not proof.")
+
+
+def P(scenarios, rule, technique, level_text, quick_runs=300, quick_budget_s=75, thorough_budget_s=1200,
+      expect_probes=(), level="exploration", assumptions=(), note=COMMON_NOTE):
+    return {"scenarios": scenarios, "rule": rule, "technique": technique, "level_text": level_text,
+            "quick_runs": quick_runs, "quick_budget_s": quick_budget_s, "thorough_budget_s": thorough_budget_s,
+            "expect_probes": list(expect_probes), "level": level, "assumptions": list(assumptions), "level_note": note}
+
+
 PROPS = {
-    "C01": {
-        "scenarios": [("solve", "fast", 1.0)],
-        "quick_runs": 400, "quick_budget_s": 100, "thorough_budget_s": 1800,
-        "level": "exploration",
-        "technique": "deterministic simulation (seeded scheduler + team shortfall) of setup()+solve(); residual-history oracle + independent reference-operator residual",
-        "level_text": "Seeded exploration of the ~20-dimensional option space with every parallel region of each solve run under the "
-                      "deterministic OpenMP simulator (seeded team sizes, shortfall, reduction-combine order). Sampling, not proof: "
-                      "a clean batch is evidence. The reported-stop half is decided against an independent sequential model of the operator.",
-        "level_note": "Trusted: model/refop.cpp (documented stencil), the a-priori rounding bound, g++/libstdc++. The simulator executes "
-                      "sequentially consistent interleavings only.",
-        "rule": "seeded option vectors over the C01 configuration set (problem triple, grid parameters, boundary mode, "
-                "strategy, extrapolation, cycle, FMG, levels, smoothing steps, norm, tolerances, threads, reduction factor) "
-                "x simulator knobs (policy, shortfall); a run is non-trivial when setup()+solve() completed and the "
-                "oracles compared the residual history; distinct = distinct option signature",
-        "expect_probes": ["stopped_early", "rate_set", "fmg_on", "extrapolation_1", "extrapolation_3", "take", "give"],
-        "assumptions": ["reference operator model/refop.cpp implements the documented stencil",
-                        "a-priori rounding bound c*m*eps*(|A||u|+|f|), c=8, m=12"],
-    },
+    "C01": P([("solve", "fast", 1.0)],
+             "seeded option vectors over the C01 configuration set (problem triple, grid parameters, boundary mode, strategy, "
+             "extrapolation, cycle, FMG, levels, smoothing steps, norm, tolerances, threads, reduction factor) x simulator knobs "
+             "(policy, shortfall); non-trivial = setup()+solve() completed and the oracles compared the residual history; "
+             "distinct = distinct option signature",
+             "deterministic simulation (seeded scheduler + team shortfall) of setup()+solve(); residual-history oracle + "
+             "independent reference-operator residual",
+             "Seeded exploration of the ~20-dimensional option space; every parallel region of each solve runs under the "
+             "deterministic OpenMP simulator (seeded team sizes, shortfall, reduction-combine order). The reported-stop half is "
+             "decided against an independent sequential model of the operator.",
+             quick_runs=400, quick_budget_s=100, thorough_budget_s=1800,
+             expect_probes=["stopped_early", "rate_set", "fmg_on", "extrapolation_1", "extrapolation_3", "take", "give"]),
+    "C03": P([("residual", "fast", 0.7), ("residual", "trace", 0.3)],
+             "seeded (problem, grid incl. arbitrary radii/angles and any circle/radial split, boundary mode, cache flags, "
+             "level of a coarsening chain, input vectors incl. huge dynamic range, thread count 1..64) x schedules; the real "
+             "ResidualGive/ResidualTake run under the simulator; distinct = distinct (bench, level) signature",
+             "deterministic simulation of the residual operators; refinement against a sequential reference stencil with "
+             "a-priori rounding bound; explicit operator columns probed with unit vectors",
+             "Give, take, cached and uncached residuals on every level are compared elementwise with f - A_ref u, coarse caches "
+             "with a fresh evaluation, and explicit rows (Dirichlet identity, 9/7-point pattern and values) with the model.",
+             expect_probes=["coarse_cache_compared", "columns_probed", "all_radial_split", "cache_00", "cache_11"]),
+    "C04": P([("directsolver", "fast", 0.75), ("directsolver", "trace", 0.25)],
+             "seeded (problem, grid from nr=5,ntheta=4 up to ~5000 nodes, boundary mode, thread count 2..>lines, right-hand "
+             "sides incl. huge dynamic range) x schedules of the 3-colour parallel assembly",
+             "deterministic simulation of the parallel CSR assembly + solve; backward-error oracle in the reference operator "
+             "and in the other strategy's real residual; cross-schedule bit equality",
+             "The solution returned by both direct solvers is fed to the reference operator (normwise backward error bound), "
+             "to the other strategy's residual, and compared between strategies and between schedules.",
+             quick_runs=250, expect_probes=["T_gt_lines", "minimal_grid", "dirbc", "across_origin"]),
+    "C05": P([("spd", "fast", 0.8), ("spd", "trace", 0.2)],
+             "seeded vector pairs vanishing on Dirichlet nodes on seeded grids (non-uniform angles, non-orthogonal mappings); "
+             "A x := -(residual with zero rhs) computed by the real operators under the simulator",
+             "deterministic simulation of the residual operators; symmetry/positivity oracle with rounding bound; Cholesky of "
+             "reference line blocks",
+             "<Ax,y> = <x,Ay> and <Ax,x> > 0 for the real give and take operators; the line blocks of the reference operator "
+             "are Cholesky-factorisable (the blocks the smoothers really factorise are private: covered indirectly by C06).",
+             quick_runs=500, expect_probes=["line_blocks_checked"]),
+    "C06": P([("smoother", "fast", 0.7), ("smoother", "trace", 0.3)],
+             "seeded smoothing-level grids (ntheta%4==0, both parities of the circle count via the splitting radius), "
+             "sequences of 1..4 sweeps (the first sweep factorises lazily inside the parallel region), both strategies, "
+             "thread count 1..64 x schedules",
+             "deterministic simulation of the smoother sweeps (history = lazy factorisation); per-sweep algebraic invariants "
+             "against the reference operator",
+             "Per sweep: fixed point at the exact discrete solution, residual zero on the last colour, Dirichlet data set, give "
+             "== take, energy norm of the error non-increasing, k-th sweep of a used object == first sweep of a fresh object.",
+             expect_probes=["fixed_point_checked", "energy_checked", "history_compared", "circles_parity_0", "circles_parity_1"]),
+    "C07": P([("exsmoother", "fast", 0.7), ("exsmoother", "trace", 0.3)],
+             "as C06 for the extrapolated smoothers on finest-level grids (>=3 circles, >=3 radial nodes)",
+             "deterministic simulation of the extrapolated smoother sweeps; byte comparison of coarse nodes, residual on "
+             "fine-only nodes of the last colour, fixed point, give == take, history",
+             "Coarse nodes are compared as bytes (a NaN or -0.0 cannot hide a rewrite); the other clauses against the reference "
+             "operator with the a-priori bound.",
+             expect_probes=["coarse_nodes_compared", "fixed_point_checked", "history_compared"]),
+    "C08": P([("transfer", "fast", 0.8), ("transfer", "trace", 0.2)],
+             "seeded fine/coarse pairs from coarsening chains (midpoint-nested and arbitrary radii/angles, any split, below and "
+             "above the 10'000-node parallel threshold), thread count 1..32 x schedules, arbitrary vectors",
+             "deterministic simulation of all transfer operators; adjointness, optimised==reference, injection o P = id "
+             "(bitwise), convexity, linear exactness",
+             "All nine Interpolation::apply* operators run under the simulator on both sides of their parallel threshold; "
+             "algebraic identities decide. Linear exactness fails on non-midpoint pairs: known finding F6.",
+             quick_runs=400, expect_probes=["midpoint_pair", "nonmidpoint_pair", "above_parallel_threshold", "explicit_weights_probed"]),
+    "C11": P([("regions", "trace", 0.8), ("solve", "trace", 0.2)],
+             "one scenario per parallel region of the library (residual, smoothers, extrapolated smoothers, direct-solver "
+             "assembly, level caches, nine transfers, vector kernels) on seeded grid-shape classes (circles mod 2,3,4; ntheta "
+             "mod 3,4; minimal sizes; both boundary modes) with team sizes 2..256 (>= trip count of every loop) and team "
+             "shortfall, plus whole setup()+solve(); every instrumented access of every run is checked by the HB monitor; "
+             "distinct = distinct (operator, level, shape class, team size, bench) signature",
+             "deterministic simulation with access-granular seeded preemption; exact happens-before race monitor (the "
+             "simulator is the OpenMP runtime) + cross-schedule bit equality of outputs",
+             "The HB monitor decides race freedom exactly for the synchronisation performed at each explored (shape, team "
+             "size); T >= trip count compares every pair of iterations of a phase. Shapes and team sizes are sampled.",
+             quick_runs=1200, quick_budget_s=110, thorough_budget_s=1800,
+             expect_probes=["T_ge_trip_count", "above_parallel_threshold", "monitored", "op:smoother_give", "op:exsmoother_take",
+                            "op:directsolver_give", "op:residual_give", "op:levelcache_coarse", "op:fmg_interpolation",
+                            "op:vector_kernels"]),
+    "C12": P([("repro_ops", "fast", 0.6), ("kernels", "fast", 0.1), ("kernels", "trace", 0.1), ("repro_solve", "fast", 0.2)],
+             "(a) each operator call / fixed-cycle solve executed under >=4 scheduler seeds with identical team sizes; (b) the "
+             "same plan at T=1 and another T in {2,3,4,8,16,32}; (c) vector kernels at n in {1,7,9999,10000,10001,20011,65537} "
+             "against the exact (long double, compensated) value",
+             "deterministic simulation: deliberately different legal schedules of the same input (bit equality), thread-count "
+             "sweep with a-priori re-association bound, kernels vs exact sums",
+             "Bit equality is demanded between schedules at fixed team sizes; across thread counts the difference is bounded "
+             "a priori (elementwise / residual space). Reduction scalars are checked to rounding, not bitwise.",
+             quick_runs=700, quick_budget_s=100, thorough_budget_s=1800,
+             expect_probes=["above_parallel_threshold", "below_parallel_threshold", "compared_with_T1", "multi_thread_region_executed"]),
 }
 
 NOT_APPLICABLE = {
@@ -26,4 +105,4 @@ NOT_APPLICABLE = {
     "C19": "closed-form const functions of (r,theta); no state, no parallel region, no I/O (DESIGN.md 9.3)",
 }
 PENDING = {k: "check under construction at this commit (see DESIGN.md section 6); not claimed yet" for k in
-           ["C02", "C03", "C04", "C05", "C06", "C07", "C08", "C09", "C10", "C11", "C12", "C13", "C14", "C15", "C18", "C20"]}
+           ["C02", "C09", "C10", "C13", "C14", "C15", "C18", "C20"]}
